@@ -189,6 +189,8 @@ class CallModels:
 
     # ================================================================= indexing
     def index(self, eng, b, k, st):
+        if isinstance(b, VFunc) and b.model and b.model[0] == 'table':
+            return self.interface.tables[b.model[1]].lookup(eng, k, st)
         if isinstance(b, VRef):
             o = st.get(b)
             if isinstance(o, OContainer) and self.interface is not None:
